@@ -277,10 +277,20 @@ fn records_cyclic(spec: &BaseSpec, records: &[(usize, Rec)]) -> bool {
     (0..n).any(|v| col[v] == 0 && dfs(v, &edges, &mut col))
 }
 
-/// "Forward" cases: following the records from a key x (abandon -> parents, transitively
-/// through other keys) reaches a commit that is a strict descendant of x in the input DAG.
-/// jj's own test `test_rebase_descendants_forward` documents that this is not supported.
-fn records_forward(spec: &BaseSpec, anc: &[u64], records: &[(usize, Rec)]) -> bool {
+/// "Forward" cases (the mapping is cyclic once ancestry is taken into account): some
+/// record's target must itself be rebased because it descends from a rewritten/abandoned
+/// commit that (transitively) maps to it. The one-record form is `set_rewritten_commit(x, y)`
+/// with y a descendant of x, which jj's own test `test_rebase_descendants_forward` documents
+/// as not supported (the commits between x and y end up twice); with two records the
+/// dependency can go through both (x -> y, y below x', x' -> y', y' below x).
+///
+/// Graph over the input commits: record edges x -> each target (abandon -> parents), and
+/// ancestry edges c -> k for every key k with a non-divergent record that is a strict
+/// ancestor of c. Record-only cycles are excluded from the enumeration beforehand, so every
+/// cycle here uses an ancestry edge. Returns (commits on a cycle, keys whose records lead
+/// into a cycle), both as bit masks.
+fn forward_region(spec: &BaseSpec, anc: &[u64], records: &[(usize, Rec)]) -> (u64, u64) {
+    let n = spec.parents.len();
     let targets = |x: usize| -> Vec<usize> {
         match records.iter().find(|(k, _)| *k == x).map(|(_, r)| r) {
             Some(Rec::To(y)) => vec![*y],
@@ -291,21 +301,62 @@ fn records_forward(spec: &BaseSpec, anc: &[u64], records: &[(usize, Rec)]) -> bo
             _ => vec![],
         }
     };
-    for (x, _) in records {
-        let mut stack = targets(*x);
-        let mut seen = 0u64;
-        while let Some(y) = stack.pop() {
-            if seen >> y & 1 == 1 {
-                continue;
+    let rebasing_key = |k: usize| {
+        records
+            .iter()
+            .any(|(x, r)| *x == k && !matches!(r, Rec::Divergent))
+    };
+    // adjacency as bit masks
+    let mut rec_adj = vec![0u64; n];
+    let mut adj = vec![0u64; n];
+    for c in 0..n {
+        for t in targets(c) {
+            rec_adj[c] |= 1 << t;
+        }
+        adj[c] = rec_adj[c];
+        for k in 0..n {
+            if k != c && anc[c] >> k & 1 == 1 && rebasing_key(k) {
+                adj[c] |= 1 << k;
             }
-            seen |= 1 << y;
-            if y != *x && anc[y] >> *x & 1 == 1 {
-                return true;
-            }
-            stack.extend(targets(y));
         }
     }
-    false
+    let closure = |adj: &[u64]| -> Vec<u64> {
+        // reach[v] = nodes reachable from v by >= 1 edge
+        let mut reach = adj.to_vec();
+        loop {
+            let mut changed = false;
+            for v in 0..n {
+                let mut m = reach[v];
+                for w in 0..n {
+                    if reach[v] >> w & 1 == 1 {
+                        m |= reach[w];
+                    }
+                }
+                if m != reach[v] {
+                    reach[v] = m;
+                    changed = true;
+                }
+            }
+            if !changed {
+                return reach;
+            }
+        }
+    };
+    let reach = closure(&adj);
+    let mut cyc = 0u64;
+    for v in 0..n {
+        if reach[v] >> v & 1 == 1 {
+            cyc |= 1 << v;
+        }
+    }
+    let rec_reach = closure(&rec_adj);
+    let mut feeding = 0u64;
+    for (k, _) in records {
+        if cyc >> *k & 1 == 1 || rec_reach[*k] & cyc != 0 {
+            feeding |= 1 << *k;
+        }
+    }
+    (cyc, feeding)
 }
 
 // ---------------------------------------------------------------------------------------
@@ -347,9 +398,19 @@ fn run_case(base: &Base, spec: &BaseSpec, var: &Var) -> CaseResult {
             base.commits[t as usize].id().clone()
         }
     };
-    let forward = records_forward(spec, &base.anc, &var.records);
+    let (fcyc, ffeeding) = forward_region(spec, &base.anc, &var.records);
+    let forward = fcyc != 0;
     stats.forward = forward;
-    let fwd = if forward { "/target-descends-from-source" } else { "" };
+    // In a forward case the suffix is attached only to the clauses the class explains (see
+    // on_forward_path); every other clause keeps "-other" so that it is never mistaken
+    // for the documented behaviour.
+    let fwd = if forward { "/target-descends-from-source-other" } else { "" };
+    const FWD: &str = "/target-descends-from-source";
+    let below_forward_source = |o: usize| -> bool { base.anc[o] & ffeeding != 0 };
+    // the old forward target y stays visible (its own rebased copy sits on it), and with it
+    // every old ancestor of y
+    let kept_by_forward_target =
+        |o: usize| -> bool { (0..n).any(|v| fcyc >> v & 1 == 1 && base.anc[v] >> o & 1 == 1) };
     // A divergent rewrite leaves the old commit and its descendants in place (documented), so
     // when an ancestor of such a commit is rewritten in the same round, the old commit stays
     // on the old ancestor. Violations that are exactly this shape get their own signature.
@@ -466,12 +527,16 @@ fn run_case(base: &Base, spec: &BaseSpec, var: &Var) -> CaseResult {
     });
     match res {
         Err(e) => {
-            let sfx = if forward {
-                fwd
-            } else if e.contains("RewriteRootCommit") {
+            let sfx = if forward
+                && (e.contains("graph has cycle") || e.contains("because of cycle in the parent mapping"))
+            {
+                FWD
+            } else if e.contains("RewriteRootCommit")
+                && wc_follows_rewrite_to_root(base, var, &t, &callbacks, &root_id)
+            {
                 "/working-copy-follows-rewrite-to-root"
             } else {
-                ""
+                fwd
             };
             viol.push((
                 format!("C11/rebase/panic{sfx}"),
@@ -480,6 +545,11 @@ fn run_case(base: &Base, spec: &BaseSpec, var: &Var) -> CaseResult {
             return CaseResult { violations: viol, stats };
         }
         Ok(Err(e)) => {
+            let fwd = if forward && format!("{e}").contains("Cycle between rewritten commits") {
+                FWD
+            } else {
+                fwd
+            };
             viol.push((
                 format!("C11/rebase/error{fwd}"),
                 format!("rebase_descendants_with_options failed on an acyclic mapping: {e}"),
@@ -574,12 +644,25 @@ fn run_case(base: &Base, spec: &BaseSpec, var: &Var) -> CaseResult {
         }
         for p in get(id).parent_ids() {
             if replaced(p) {
-                let sfx = if forward {
-                    fwd
-                } else if matches!(t.get(id), Some(T::Div(_))) {
+                // both ends derive from input commits in the region the forward rewrite
+                // disturbs: ancestors of the (kept) old target or descendants of the source
+                let in_region = |c: &CommitId| {
+                    origin
+                        .get(c)
+                        .is_some_and(|&o| kept_by_forward_target(o) || below_forward_source(o))
+                };
+                let explained_by_forward = forward && in_region(id) && in_region(p);
+                let sfx = if explained_by_forward {
+                    FWD
+                } else if matches!(t.get(id), Some(T::Div(_)))
+                    || (replaced(id)
+                        && t.iter().any(|(d, kind)| {
+                            matches!(kind, T::Div(_)) && visible.contains(d) && is_ancestor(&get, id, d)
+                        }))
+                {
                     DIVSFX
                 } else {
-                    ""
+                    fwd
                 };
                 viol.push((
                     format!("C11/orphan/visible-child-of-replaced{sfx}"),
@@ -921,12 +1004,15 @@ fn run_case(base: &Base, spec: &BaseSpec, var: &Var) -> CaseResult {
                                     && is_ancestor(&get, r, d)
                             })
                     };
-                    let sfx = if forward {
-                        fwd
+                    let explained_by_forward = forward
+                        && matches!((oa, ob), (Some(&oa), Some(&ob)) if oa == ob
+                            && (kept_by_forward_target(oa) || below_forward_source(oa)));
+                    let sfx = if explained_by_forward {
+                        FWD
                     } else if kept_by_divergent(&group[a]) || kept_by_divergent(&group[b]) {
                         DIVSFX
                     } else {
-                        ""
+                        fwd
                     };
                     viol.push((
                         format!("C11/change-id/unexplained-duplicate{sfx}"),
@@ -998,6 +1084,34 @@ fn check_view(
             ));
         }
     }
+}
+
+/// Precondition of the known panic: some workspace sits on a commit whose own record is a
+/// rewrite (not an abandon) and whose fully resolved replacement list starts with the root
+/// commit. The progress callbacks all ran before the panic, so the total mapping is known.
+fn wc_follows_rewrite_to_root(
+    base: &Base,
+    var: &Var,
+    records: &HashMap<CommitId, T>,
+    callbacks: &[(Commit, RebasedCommit)],
+    root_id: &CommitId,
+) -> bool {
+    let mut t = records.clone();
+    for (old, new) in callbacks {
+        match new {
+            RebasedCommit::Rewritten(c) => {
+                t.entry(old.id().clone()).or_insert(T::Rew(c.id().clone()));
+            }
+            RebasedCommit::Abandoned { parent_id } => {
+                t.entry(old.id().clone()).or_insert(T::Aban(vec![parent_id.clone()]));
+            }
+        }
+    }
+    var.wcs.iter().any(|(_, i)| {
+        let x = base.commits[*i].id();
+        matches!(t.get(x), Some(T::Rew(_)) | Some(T::Div(_)))
+            && resolve_all(&t, x).first() == Some(root_id)
+    })
 }
 
 /// Is `a` a strict ancestor of `d` (by commit objects)?
@@ -1190,6 +1304,7 @@ struct Totals {
     immutable_blocked: Counter,
     dup_groups: Counter,
     bases: Counter,
+    unclassified_violations: Counter,
 }
 
 fn case_json(spec: &BaseSpec, var: &Var) -> serde_json::Value {
@@ -1228,6 +1343,12 @@ fn account(ctx: &Ctx, tot: &Totals, samples: &Samples, spec: &BaseSpec, var: &Va
     let mut seen: HashSet<String> = HashSet::new();
     for (sig, msg) in r.violations {
         if seen.insert(sig.clone()) {
+            if !(sig.ends_with("/target-descends-from-source")
+                || sig.ends_with("/divergent-source-left-on-replaced-ancestor")
+                || sig.ends_with("/working-copy-follows-rewrite-to-root"))
+            {
+                tot.unclassified_violations.inc();
+            }
             ctx.violation(&sig, msg, case_json(spec, var));
         }
     }
@@ -1259,11 +1380,12 @@ fn main() {
     // part A: "all references at once" on the larger graphs
     let a_max_n = ctx.pick(4, 5);
     let a_two_records_max_n = ctx.pick(3, 4);
-    let a_dup_max_n = ctx.pick(3, 4);
+    let a_dup_max_n = ctx.pick(3, 3);
     let a_abandon_pairs_max_n = ctx.pick(3, 4);
     // part B: explicit sparse reference placement on the smaller graphs
     let b_max_n = ctx.pick(3, 4);
     let b_two_records_max_n = ctx.pick(2, 3);
+    let b_conflicted_max_n = 3;
 
     let tot = Totals {
         evals: Counter::new(),
@@ -1283,6 +1405,7 @@ fn main() {
         immutable_blocked: Counter::new(),
         dup_groups: Counter::new(),
         bases: Counter::new(),
+        unclassified_violations: Counter::new(),
     };
     let samples = Samples::new(5);
     let part_a = Counter::new();
@@ -1352,7 +1475,10 @@ fn main() {
         if n <= b_max_n && spec.dup.is_none() {
             let max_records = if n <= b_two_records_max_n { 2 } else { 1 };
             let record_sets = record_sets(spec, max_records, false);
-            let placements = refs_sparse(n);
+            let placements: Vec<_> = refs_sparse(n)
+                .into_iter()
+                .filter(|(bms, _)| n <= b_conflicted_max_n || bms.iter().all(|(_, t)| t.len() == 1))
+                .collect();
             for records in &record_sets {
                 if records_cyclic(spec, records) {
                     tot.skipped_cyclic.inc();
@@ -1393,8 +1519,10 @@ fn main() {
         ("shared_change_id_groups_checked", tot.dup_groups.get()),
         ("cases_target_descends_from_source", tot.forward.get()),
     ];
+    // (when the run already has violations outside the documented classes, e.g. every case
+    // panics, they are the verdict; a zero counter is then a consequence, not vacuity)
     for (name, v) in &vac {
-        if *v == 0 {
+        if *v == 0 && tot.unclassified_violations.get() == 0 {
             machinery_failure(&format!("vacuous run: counter {name} is zero"));
         }
     }
@@ -1415,6 +1543,7 @@ fn main() {
                        "empty_behaviors": 3, "delete_abandoned_bookmarks": 2, "immutable": "none + ::k for every k",
                        "content_rotations": 3},
             "part_b": {"max_commits": b_max_n, "two_records_up_to": b_two_records_max_n,
+                       "conflicted_bookmark_up_to": b_conflicted_max_n,
                        "empty_behaviors": "keep", "immutable": "none"},
         }),
     );
